@@ -127,6 +127,16 @@ fn inst_oracle(c: &Inst) -> Verdict {
         let r = lib!(e.to_rfc3339());
         ensure!(r == format!("{}+00:00", uv), "to_rfc3339: got {:?}, want {:?}", r, format!("{}+00:00", uv));
     }
+    // Gregorian string in another scale (exact conversions only): rendering of the converted count
+    if exact(c.s) {
+        let others = [S_TAI, S_TT, S_UTC, S_GPST, S_GST, S_BDT, S_QZSST];
+        let o = others[(c.g.rem_euclid(7)) as usize];
+        if let Some(c2) = from_tai(o, tai) {
+            let got = lib!(e.to_gregorian_str(SCALES[o]));
+            let wanted = format!("{} {}", render_iso(&greg_of_ns1900(c2 + greg_offset_ns(o))), SCALE_NAMES[o]);
+            ensure!(got == wanted, "to_gregorian_str({}) of {}: got {:?}, want {:?}", SCALE_NAMES[o], want, got, wanted);
+        }
+    }
     // TAI and TT views
     let (tai_cnt, tt_cnt) = if exact(c.s) {
         (tai, tai + 32_184_000_000)
